@@ -113,7 +113,8 @@ def run(pid: str, tier: str) -> dict:
     files = []
     for k in range(shards):
         p = d / f"s{k}.ndjson"
-        p.write_text("".join(json.dumps(t) + "\n" for t in traces[k::shards]))
+        # (final_eval is the harness's own observation for the relation between executions: not part of the trace TLC reads)
+        p.write_text("".join(json.dumps({k_: v_ for k_, v_ in t.items() if k_ != "final_eval"}) + "\n" for t in traces[k::shards]))
         files.append(p)
     try:
         with ThreadPoolExecutor(shards) as ex:
